@@ -568,6 +568,40 @@ def rule_account_first(ctx):
     ctx.floor(rid + ".functions", 4)
 
 
+def rule_oom_drop(ctx):
+    """an exhausted budget is never swallowed"""
+    from ..mirutil import local_uses
+    from ..facts import pos_line
+    rid = "R-OOM-DROP"
+    ctx.rule(rid, "no Result whose error is OutOfMemory / TryReserveError (or a crate error that wraps it) produced by a call that takes the "
+                  "tracker or allocates is discarded: a call result of such a type that is never read, or whose `.ok()` is never read, "
+                  "turns 'limit reached' into silently missing memory (census over the library crates)")
+    n = 0
+    for f in ctx.prog.all_fns(LIB_CRATES):
+        uses = None
+        for b, t in f.calls():
+            c = callee(t)
+            if not c or len(t[3]) != 1 or t[3][0] == 0:
+                continue
+            ty = f.local_ty(t[3][0])
+            is_res = ty.startswith("core::result::Result<") and ("OutOfMemory" in ty or "TryReserveError" in ty)
+            is_ok = c["fn"] in ("core::result::Result::<T, E>::ok", "core::result::Result::<T, E>::err") and \
+                any(("OutOfMemory" in a or "TryReserveError" in a) for a in c["args"])
+            if not (is_res or is_ok):
+                continue
+            n += 1
+            if uses is None:
+                uses = local_uses(f)
+                ctx.seen(f)
+            if uses.get(t[3][0], 0) == 0:
+                ctx.bad(rid, "%s|%s" % (f.path, "ok-discarded" if is_ok else "result-discarded:" + c["fn"].split("::")[-1]),
+                        "the result of %s (line %d, type %s) is never read: reaching the allocation limit is silently dropped"
+                        % (c["fn"].split("::")[-1], pos_line(t[-2]), ty[:70]), fn=f, pos=t[-2])
+    ctx.counts[rid + ".oom-results"] = n
+    ctx.ok(rid, "census", "%d calls producing Result<_, OutOfMemory | TryReserveError>; none discarded" % n)
+    ctx.floor(rid + ".oom-results", 40)
+
+
 def untracked_source(f, t):
     """the unwrapped Result comes from a call one of whose arguments is the constant None (tracker)"""
     defs = Defs(f)
@@ -604,6 +638,7 @@ def main(pid, tier, repo=None):
         rule_noleak(ctx)
         rule_oom(ctx)
         rule_account_first(ctx)
+        rule_oom_drop(ctx)
         # exhaustion must surface as an error also when it happens in one of several parallel tasks: the shared result slot is monotone
         from . import c07
         c07.rule_errslot(ctx)
